@@ -418,6 +418,7 @@ type c02World struct {
 	overDemand                                    int             // settle rounds in which addresses were requested although enough were idle
 	inSettle                                      bool
 	writeLost                                     bool              // a record write failed and no later pass has persisted a full sync yet
+	efloCollision                                 bool              // a half-created EFLO address was answered while the record already held one under the empty key
 	drifted                                       map[string]string // addresses removed in the cloud out of band (addr -> interface) since the last persisted full sync
 	failedWrites                                  int               // 1 if the latest pass whose record write failed had changed the cloud (the controller then must resync)
 	settleTail                                    [][]cloudctl.Call // calls of the last settle rounds
